@@ -77,6 +77,44 @@ class SymFactory:
             v = SymbolicBytes(cells) if n else b""
         return self._reg(name, "bytes", v)
 
+    def assume(self, cond):
+        """adds a constraint WITHOUT forking when cond is a symbolic bool; rejects the path when it is false"""
+        from crosshair.libimpl.builtinslib import SymbolicBool
+        from crosshair.statespace import context_statespace
+        from crosshair.tracers import NoTracing
+        from crosshair.util import IgnoreAttempt
+        with NoTracing():
+            if isinstance(cond, SymbolicBool):
+                space = context_statespace()
+                if not space.is_possible(cond.var):
+                    raise IgnoreAttempt("assumption unsatisfiable")
+                space.add(cond.var)
+                return
+        if not cond:
+            raise IgnoreAttempt("assumption false")
+
+    def distinct(self, idents):
+        """pairwise distinctness of identifiers made by ident()/bytes(), asserted directly (no forking)"""
+        import z3
+        from crosshair.statespace import context_statespace
+        from crosshair.tracers import NoTracing
+        with NoTracing():
+            space = context_statespace()
+            for a in range(len(idents)):
+                for b in range(a + 1, len(idents)):
+                    ca, cb = idents[a].inner, idents[b].inner
+                    space.add(z3.Or(*[x.var != y.var for x, y in zip(ca, cb)]))
+
+    def ident(self, name, size, zero_free_pos=None):
+        """identifier of `size` bytes that cannot be all-zero: one byte position is 1..255, the others 0..255"""
+        from crosshair.libimpl.builtinslib import SymbolicBoundedInt, SymbolicBytes
+        from crosshair.tracers import NoTracing
+        zp = (size - 1) if zero_free_pos is None else zero_free_pos % size
+        with NoTracing():
+            cells = [SymbolicBoundedInt("%s_%d" % (name, i), int, 1 if i == zp else 0, 255) for i in range(size)]
+            v = SymbolicBytes(cells)
+        return self._reg(name, "bytes", v)
+
     def pick(self, name, lo, hi):
         """small-range int that the harness forks on: returns a CONCRETE int per path"""
         v = self.int(name, lo, hi)
@@ -130,7 +168,7 @@ def run(spec, res):
     from crosshair.util import IgnoreAttempt, UnexploredPath
 
     from vf import sx_plugin
-    sx_plugin.install()
+    layered = sx_plugin.install()
 
     mod = importlib.import_module(spec["module"])
     fn = getattr(mod, spec["func"])
@@ -157,6 +195,7 @@ def run(spec, res):
         status = None
         with condition_parser([AnalysisKind.PEP316]), Patched(), COMPOSITE_TRACER, NoTracing(), \
                 StateSpaceContext(space):
+            COMPOSITE_TRACER.patching_module.add(layered)
             try:
                 ret = None
                 with ExceptionFilter() as efilter, ResumedTracing():
@@ -185,13 +224,18 @@ def run(spec, res):
             except IgnoreAttempt:
                 status = None
                 res["ignored"] += 1
-            except UnexploredPath:
+            except UnexploredPath as e:
                 status = VerificationStatus.UNKNOWN
                 res["unknown"] += 1
+                if not res.get("unknown_why"):
+                    res["unknown_why"] = "%s: %s | %s" % (type(e).__name__, str(e)[:200],
+                                                          traceback.format_exc()[-1200:])
             except NotDeterministic:
                 status = VerificationStatus.UNKNOWN
                 res["unknown"] += 1
                 res["reason"] = "NotDeterministic"
+            finally:
+                COMPOSITE_TRACER.patching_module.pop(layered)
             _a, exhausted = space.bubble_status(CallAnalysis(status))
         res["paths"] = it
         if exhausted:
